@@ -227,6 +227,46 @@ def match_table(fx, m):
     return [(pat_norm(fx, a["pat"]), result_norm(fx, a["body"]), a) for a in m["arms"]]
 
 
+def ifchain_table(fx, fn):
+    """a conversion written as `if x == A { .. } else if x == B { .. } else { .. }` on one subject, read as a match table:
+    [(pattern term, result term, arm-like dict)] or None"""
+    root = hirq.body_root(fn)
+    e = root.get("expr") if root.get("k") == "block" else root
+    if not isinstance(e, dict):
+        return None
+    e = peel(e)
+    out = []
+    subject = None
+    while isinstance(e, dict) and e.get("k") == "if":
+        c = e["cond"]
+        if c.get("k") != "bin" or c.get("op") != "Eq":
+            return None
+        sides = []
+        for side, other in ((c["l"], c["r"]), (c["r"], c["l"])):
+            x = side
+            while x.get("k") in ("addrof",) or (x.get("k") == "un" and x.get("op") == "Deref"):
+                x = x["e"]
+            pn = pat_expr_norm(fx, x) if x.get("k") in ("lit", "path") else ("other",)
+            if pn[0] in ("int", "str", "bytes"):
+                sides.append((pn, other, x))
+        if len(sides) != 1:
+            return None
+        pn, other, cnode = sides[0]
+        subj = hirq.expr_str(other)
+        if subject is None:
+            subject = subj
+        elif subject != subj:
+            return None
+        out.append((pn, result_norm(fx, e["then"]), {"pat": {"k": "expr", "e": cnode}, "body": e["then"], "line": e.get("line")}))
+        if "else" not in e:
+            return None
+        e = peel(e["else"])
+    if not out:
+        return None
+    out.append((("wild",), result_norm(fx, e), {"pat": {"k": "wild"}, "body": e, "line": e.get("line")}))
+    return out
+
+
 def fourcc_of(code):
     return bytes([(code >> 24) & 255, (code >> 16) & 255, (code >> 8) & 255, code & 255]).decode("latin-1")
 
